@@ -827,8 +827,12 @@ class Model(Object):
                 forward = reaction.forward_variable
                 reverse = reaction.reverse_variable
 
-                obj_coef = reaction.objective_coefficient
-                if obj_coef != 0:
+                # the coefficients as they are in the objective (an objective such as
+                # the one of pFBA does not have the form c, -c)
+                obj_coefs = self.solver.objective.get_linear_coefficients(
+                    [forward, reverse]
+                )
+                if any(obj_coefs.values()):
                     if context:
                         # look the objective up when undoing: it may have been
                         # replaced in the meantime
@@ -839,7 +843,7 @@ class Model(Object):
                                         coefficients
                                     )
                                 ),
-                                {forward: obj_coef, reverse: -obj_coef},
+                                dict(obj_coefs),
                             )
                         )
                     # the objective must not keep terms in variables that leave
